@@ -91,7 +91,7 @@ def gen_model(rng, near_tie=False, big=False):
     nb = rng.randint(2, 8) if not big else rng.randint(6, 8)
     if not big and nb > 6 and rng.random() < 0.5:
         nb = rng.randint(2, 6)
-    ne = rng.randint(1, 5)
+    ne = 0 if rng.random() < 0.12 else rng.randint(1, 5)       # 0: a model of binaries only (nothing calls abssum on it)
     half = [F(k, 2) for k in range(0, 7)]
     prods = []
     plain = list(range(nb))
@@ -146,7 +146,10 @@ def gen_model(rng, near_tie=False, big=False):
     const = F(0) if rng.random() < (0.8 if gap == 0 else 0.5) else F(rng.randint(5, 60), 10)
     limit = rng.choice([None, None, None, None, 1, 2, 3, 0])
     return {"nb": nb, "eq": eq, "rows": rows, "prods": prods, "obj": obj, "abs": abs_c, "const": const, "gap": gap, "limit": limit,
-            "near_tie": near_tie, "swap_names": rng.random() < 0.35}
+            "near_tie": near_tie, "swap_names": rng.random() < 0.35,
+            # deferred creation (addVar(update=False), the keyword minor.py uses for its phasing binaries): a documented no-op for
+            # CBC; with no error term in the model nothing calls update() or abssum() before solutions()
+            "defer": rng.random() < (0.75 if ne == 0 else 0.3)}
 
 
 def to_json(c):
@@ -219,7 +222,8 @@ def build_impl(c, lpi):
     # another in one process, so a name used for a binary in one model is used for a continuous variable in the next one
     # (the interface must not carry anything over from one model to the next)
     pB, pE = ("E", "B") if c.get("swap_names") else ("B", "E")
-    B = [m.addVar(vtype="B", name=f"{pB}_{i}") for i in range(c["nb"])]
+    dk = {"update": False} if c.get("defer") else {}
+    B = [m.addVar(vtype="B", name=f"{pB}_{i}", **(dk if i % 2 else {})) for i in range(c["nb"])]
     E = []
     for j, e in enumerate(c["eq"]):
         lb = -m.INF if e["lb"] is None else float(e["lb"])
@@ -239,7 +243,9 @@ def build_impl(c, lpi):
         m.prod(B[p["res"]], [B[t] for t in p["ts"]])
     coeffs = {f"{pE}_{j}": float(x) for j, x in c["abs"].items()}
     coeffs[f"{pE}_999"] = 7.0                                           # a name that is not a term: must be ignored
-    o = m.quicksum(float(x) * B[i] for i, x in c["obj"]) + m.abssum(E, coeffs=coeffs)
+    o = m.quicksum(float(x) * B[i] for i, x in c["obj"])
+    if E or not c.get("defer"):
+        o = o + m.abssum(E, coeffs=coeffs)
     if c["const"] != 0:
         o = o + float(c["const"])
     m.setObjective(o)
@@ -255,7 +261,9 @@ def run_impl(c):
         cap = 2 ** c["nb"] + 2
         kw = {} if c["limit"] is None else {"limit": c["limit"]}
         for st, obj, names in m.solutions(float(c["gap"]), **kw):
-            vals = {v.name(): v.solution_value() for v in m.variables()}
+            # values straight from the back end's own variable list (the wrapper's variables() is what solutions() itself reads:
+            # the predicate compares the yielded names with the binaries the solver has at 1)
+            vals = {v.name(): v.solution_value() for v in m.model.variables()}
             ys.append((obj, tuple(names), vals, st))
             if len(ys) >= cap:
                 runaway = True
